@@ -40,7 +40,8 @@ type detRewrite struct {
 //	time.Now() / time.Since(t)                   ->  zzsim.Now() / zzsim.Since(t)
 //	maps.Keys/Values/All(m)                      ->  zzsim.MapKeys/MapValues/MapSeq
 //
-// go statements, non-poll selects, math/rand, os.Getpid/Hostname/Getenv are reported as
+// go statements, non-poll selects, math/rand, os.Getpid/Hostname/Getenv, raw directory
+// enumeration ((*os.File).ReadDir) are reported as
 // unowned sources.
 func rewriteDeterminismSeams(repo string) (*detRewrite, error) {
 	cfg := &packages.Config{
@@ -135,6 +136,11 @@ func rewriteDeterminismSeams(repo string) (*detRewrite, error) {
 							recv := s.Recv().String()
 							if (sel.Sel.Name == "MapRange" || sel.Sel.Name == "MapKeys") && strings.Contains(recv, "reflect.Value") && !strings.HasPrefix(rel, "util/dump/") {
 								out.unowned = append(out.unowned, pos(n)+": reflect map walk")
+							}
+							if (sel.Sel.Name == "ReadDir" || sel.Sel.Name == "Readdir" || sel.Sel.Name == "Readdirnames") && strings.Contains(recv, "os.File") && !strings.HasPrefix(rel, "cmd/") {
+								// (*os.File).ReadDir returns entries in the order the file system keeps
+								// them (os.ReadDir and filepath.Glob sort): the harness cannot permute that
+								out.unowned = append(out.unowned, pos(n)+": raw directory enumeration order ((*os.File)."+sel.Sel.Name+")")
 							}
 							if sel.Sel.Name == "Range" && strings.Contains(recv, "sync.Map") {
 								out.unowned = append(out.unowned, pos(n)+": sync.Map.Range")
